@@ -80,6 +80,7 @@ void Kernel::reset(const World &nw, uint64_t nsalt) {
   n_getcwd_erange = n_data_at_death = 0;
   n_descendants = 0;
   n_stepped_reads = 0;
+  n_stalls = 0;
   natural_emfile_ops.clear();
   cur = nullptr;
   last_task = -1;
@@ -253,11 +254,11 @@ int Kernel::user_pipe(int fds[2]) {
   return 0;
 }
 
-int Kernel::user_open(const char *path, int flags) {
+int Kernel::user_open(const char *path, int flags, int min_fd) {
   int err = 0;
   int n = vfs_lookup(caller->cwd, path, &err);
   if (n < 0) return -1;
-  int fd = fd_alloc(caller, 3);
+  int fd = fd_alloc(caller, min_fd);
   if (fd < 0) return -1;
   OFD *o = ofd_new(vfs[(size_t) n].kind == VNode::DEVNULL ? OFD::NUL : OFD::FILE);
   o->vnode = n;
